@@ -1,3 +1,5 @@
+import KmipGen.CodecSrc
+import KmipModel.ExpectCodec
 import KmipProofs.RegistryKeys
 import KmipGen.Consts
 /-
@@ -54,5 +56,17 @@ theorem GenC18_unknown_rejected : KmipGen.unknownNameRejected = true := by decid
 theorem GenC18_injective :
     sortedInjective RegistryKeys.batchAliasK RegistryKeys.anyAliasK (KmipGen.tagConstsK ++ [(RegistryKeys.dashK, 0xffffff)]) = true := by
   decide +kernel
+
+end Kmip
+
+/-
+  Codec source tie (re-checked against /repo's current source on every run): the normalised source of every function of
+  the groups below, as kvscan reads it from /repo now, is the text the model was validated against (KmipModel/ExpectCodec.lean;
+  readable form in KmipModel/ExpectCodecSrc.txt). See harness/cmd/kvscan/srcdigest.go for the normalisation.
+-/
+namespace Kmip
+
+/-- struct descriptors (fields.go, types.go) -/
+theorem GenC18_codec_src_desc : KmipGen.codecSrc_desc = ExpectCodec.codecSrc_desc := by decide
 
 end Kmip
